@@ -128,7 +128,7 @@ pub fn layout_module(l: &Layout) -> String {
 
     // auxiliary types
     for (j, f) in l.fields.iter().enumerate() {
-        let w = f.width();
+        let w = f.value_width();
         match &f.kind {
             Kind::EnumExh => {
                 let discs: Vec<u128> = (0..(1u128 << w)).collect();
@@ -173,7 +173,7 @@ pub fn layout_module(l: &Layout) -> String {
 
     // conversions
     for (j, f) in l.fields.iter().enumerate() {
-        let w = f.width();
+        let w = f.value_width();
         let st = setter_type(f, j);
         let body_in = match &f.kind {
             Kind::Bool => "(v & 1) != 0".to_string(),
